@@ -171,10 +171,37 @@ fn acc_strategy(max_len: usize) -> BoxedStrategy<Acc> {
         .boxed()
 }
 
+/// Integers whose LOW machine word(s) alone look like a multiple of 10^z (n = hi * 2^(32w) + m * 10^z with m * 10^z < 2^(32w)) although the whole
+/// integer is not one, and the converse (a multiple of 10^z whose low words show no zero): shortcuts that look at one limb go wrong here only.
+fn limb_deceptive_strategy() -> BoxedStrategy<Acc> {
+    (prop_oneof![Just(1u32), Just(2), Just(4)], 1u32..=38, any::<u64>(), any::<u64>(), 0..4u8, any::<bool>(), gen::scale_strategy(60), 0..3u8)
+        .prop_map(|(w, z, r1, r2, how, neg, scale, with_ext)| {
+            let word = BigInt::from(1) << (32 * w);
+            let tz = BigInt::from(10u8).pow(z);
+            // the largest z that still fits the word
+            let (z, tz) = if tz >= word { (9 * w - 1, BigInt::from(10u8).pow(9 * w - 1)) } else { (z, tz) };
+            let _ = z;
+            let room = &word / &tz; // >= 1
+            let m = BigInt::from(1) + (BigInt::from(r1) * BigInt::from(r2 | 1)) % &room;
+            let m = if &m * &tz >= word { BigInt::from(1) } else { m };
+            let hi: BigInt = match how {
+                0 => BigInt::from(1),
+                1 => BigInt::from(1 + r2 % 9),
+                2 => BigInt::from(r2 | 1),
+                _ => (BigInt::from(r2 | 1) << 64) + BigInt::from(r1),
+            };
+            let n = hi * &word + m * &tz;
+            let n = if neg { -n } else { n };
+            Acc { d: D::new(n.to_string(), scale), ext: [0u32, 3, 20][with_ext as usize] }
+        })
+        .boxed()
+}
+
 pub fn run(ctx: &Ctx) {
     let t = ctx.tier;
     ctx.enumerated("powers-of-ten", "pow", 5001, true, "EXHAUSTIVE: k = 0..5000: digits() of 10^k, 10^k-1, 10^k+1 (both signs); one() extended to scale k by with_scale / with_prec / to_owned_with_scale / with_scale_round", |i| Some(PowCase { k: i as u32 }), check_pow);
     ctx.enumerated("small-exhaustive", "acc", small_total(), true, "EXHAUSTIVE: every unscaled value of up to 5 digits (both signs, zero) x scales -6..6 x extension {0,3}", small_case, check_acc);
     let max_len = t.pick(2000usize, 5000);
     ctx.generated("random", "acc", t.pick(300_000, 2_000_000), "up to max digits, 0..max trailing zeros, extensions 0..max, scales to +-10^4", move || acc_strategy(max_len), check_acc);
+    ctx.generated("limb-deceptive-zeros", "acc", t.pick(100_000, 1_000_000), "n = hi*2^(32w) + m*10^z (w = 1, 2, 4 words; every z that fits; hi = 1, a digit, a word, three words): the low words end in z zeros, the integer does not; both signs, scales +-60", limb_deceptive_strategy, check_acc);
 }
